@@ -165,7 +165,9 @@ Inductive event :=
 | EvReadFrom (tot : N) (e : N)             (* ReadFrom returned (tot, e) *)
 | EvStats (w r : N)                        (* Stats returned *)
 | EvDT (t : bytes)                         (* GetDataType returned t *)
-| EvPanic.                                 (* the call panicked: never produced by the model *)
+| EvPanic                                  (* the call panicked: never produced by the model *)
+| EvHang.                                  (* the released thread never reached its next yield point
+                                              within the deadline: never produced by the model *)
 
 Definition null_or_empty (t : bytes) : bool := is_nil t || bytes_eqb t types_null.
 
